@@ -69,8 +69,8 @@ func c05Cells(tier string) []Cell {
 							// ExpireAll, another key's failure or a cleanup cycle of the failure cache (from the initial state
 							// those leave the key as it was, only later)
 							maxLen := maxLen
-							if tier == "thorough" && (first == 2 || first == 3 || first == 4 || first == 5 || first == 9 || first == 10) {
-								maxLen = 4
+							if tier == "thorough" && (first == 2 || first == 3 || first == 4 || first == 5 || first == 9 || first == 10 || ft < 0) {
+								maxLen = 4 // (also with the failure cache disabled: there is no window to walk around in)
 							}
 
 							// a second key (absent) for failures of "another key"; BackendConfig carries a count limit that must not
@@ -470,7 +470,7 @@ func init() {
 		ID: "C05", Title: "Build economy: SyncRead single-flight and cached failures suppress rebuilds",
 		Cells: c05Cells, Run: c05Run,
 		Rule: "(a,c) SyncRead bursts: 2-3 threads x 1-2 Gets on one key in state {absent, stale, too stale, fresh}, builder ok / failing, SU x FH x MS x 3 front-ends, all schedules within the bound: exactly one (successful / failing) build per burst; " +
-			"(b) all sequences of <=4 (quick) / <=5 (thorough; <=4 if the sequence starts with a clock step, ExpireAll, another key's failure or a failure-cache cleanup) operations over {Get(ok), Get(ok) whose builder result is nil, Get(fail), Get(fail) under an already cancelled caller context, Get(fail) under a caller TTL of 1s, Get(ok) under a caller TTL of 1h, Get(fail) of another key, a cleanup cycle of the internal failure cache, Get(ok) whose builder returns the cached value again (ObserveMutability on in some cells), Get(fail) whose builder error matches context.DeadlineExceeded, Advance 1s, Advance FT*0.95-1ns, Advance FT*1.05+1ns, ExpireAll(backend)} for FailedUpdateTTL {20s, 5s, -1} with the jitter answer at both extremes and the middle: " +
+			"(b) all sequences of <=4 (quick) / <=5 (thorough; <=4 if the sequence starts with a clock step, ExpireAll, another key's failure or a failure-cache cleanup, or if FailedUpdateTTL is -1) operations over {Get(ok), Get(ok) whose builder result is nil, Get(fail), Get(fail) under an already cancelled caller context, Get(fail) under a caller TTL of 1s, Get(ok) under a caller TTL of 1h, Get(fail) of another key, a cleanup cycle of the internal failure cache, Get(ok) whose builder returns the cached value again (ObserveMutability on in some cells), Get(fail) whose builder error matches context.DeadlineExceeded, Advance 1s, Advance FT*0.95-1ns, Advance FT*1.05+1ns, ExpireAll(backend)} for FailedUpdateTTL {20s, 5s, -1} with the jitter answer at both extremes and the middle: " +
 			"no builder entry before t_fail + FT*(1-J/2), same error inside the window, rebuild on every Get with FT=-1",
 		Assumptions: []string{
 			"a burst happens at one virtual instant, so the built result stays fresh for its whole duration",
